@@ -17,6 +17,9 @@ Tie (b) correspondence, model evaluated by vm_compute inside Coq on the same inp
   ensuredir    os.mkdir / os.chmod calls of mapproxy.util.fs.ensure_directory (audit events, scratch directory with k existing
                levels, with and without directory_permissions)          vs  ensure_dir_ops
   tmpname      temporary file of mapproxy.util.fs.write_atomic (audit)  vs  name ++ tmp_suffix r
+  linktext     text of the symlink FileCache.store_tile makes for a single colour tile (tiles below 0..3 dimension directories,
+               stored in varying order by one FileCache object)         vs  relpath_comps
+  (fsops also runs TileLocker.lock with a usable lock directory and under the fault "lock directory cannot be created")
   wmsdims      directory below the cache root in which the real WSGI app stores the tiles of a WMS GetMap with
                attacker-chosen TIME/ELEVATION/DIM_* parameters          vs  dimensions_part py_lower
 Oracle (independent of the model; ctx.fail with the concrete input):
@@ -714,6 +717,107 @@ def stream_fsops(ctx, corpus):
                 tmpbase, r = os.path.basename(t), int(m.group(2))
         terms2.append('(%s, %s, %s)' % (strlit(name), zlit(r if r is not None else -1), strlit(tmpbase if tmpbase is not None else '?')))
         descr2.append(rep2)
+    # ---- TileLocker.lock: with a usable lock directory and with the fault "lock directory cannot be created"
+    import tempfile
+    from mapproxy.cache.base import TileLocker
+    from mapproxy.cache.tile import Tile
+    old_tmp = tempfile.tempdir
+    try:
+        for i in range(ctx.n(24, 120)):
+            ldir_root = os.path.join(base, 'lk%d' % i)
+            os.makedirs(ldir_root)
+            systmp = os.path.join(ldir_root, 'system-tmp')
+            os.makedirs(systmp)
+            tempfile.tempdir = systmp
+            fault = i % 2 == 1
+            if fault:
+                with open(os.path.join(ldir_root, 'volume'), 'w') as f:
+                    f.write('x')
+                lock_dir = os.path.join(ldir_root, 'volume', 'tile_locks')
+            else:
+                lock_dir = os.path.join(ldir_root, rng.choice(['tile_locks', 'a/b/tile_locks']))
+            coord = gen_coord(rng, 30)
+            locker = TileLocker(lock_dir, 2, 'cafe%028x' % i)
+            want = locker.lock_filename(Tile(coord))
+
+            def impl4():
+                lk = locker.lock(Tile(coord))
+                with lk:
+                    return sorted(os.listdir(lock_dir)) if os.path.isdir(lock_dir) else None
+            with audit.record() as rec:
+                o = call(impl4)
+            writes = [(ev, [os.path.normpath(_fs_text(x)) for x in p_]) for kd, ev, p_ in rec.events if kd == 'write']
+            rep = {'function': 'TileLocker(lock_dir, 2, id).lock(Tile(coord)) used as context manager', 'coord': list(coord),
+                   'lock_dir': os.path.relpath(lock_dir, base), 'fault': 'the parent of lock_dir is a regular file (ENOTDIR)' if fault else None,
+                   'tempfile.gettempdir()': os.path.relpath(systmp, base), 'result': o[1] if o[0] != 'ok' else 'ok',
+                   'modifying_calls': [(ev, [os.path.relpath(x, base) for x in ps]) for ev, ps in writes]}
+            ctx.case(('tilelocker', i, fault), True, dict(rep, stream='fsops'))
+            ctx.count('fsops tilelocker fault=%s' % fault)
+            for ev, ps in writes:
+                for x in ps:
+                    anc_ok = ev == 'os.mkdir' and (lock_dir == x or lock_dir.startswith(x + '/'))
+                    if not (x == lock_dir or x.startswith(lock_dir + '/') or anc_ok):
+                        ctx.fail('fsops,lock-file-outside-lock-dir', 'TileLocker.lock(%r) with lock_dir %s%s: %s of %s' % (
+                            list(coord), rep['lock_dir'], ' (fault: cannot be created)' if fault else '', ev, os.path.relpath(x, base)), rep)
+                        break
+                else:
+                    continue
+                break
+            if os.listdir(systmp):
+                ctx.fail('fsops,lock-file-outside-lock-dir', 'TileLocker.lock left %r in tempfile.gettempdir()' % os.listdir(systmp), rep)
+            if not fault and o[0] == 'ok' and o[1] != [os.path.basename(want)]:
+                ctx.fail('fsops,lock-file-name', 'while the lock is held lock_dir contains %r, expected %r' % (o[1], os.path.basename(want)), rep)
+    finally:
+        tempfile.tempdir = old_tmp
+    # ---- FileCache with link_single_color_images: tiles at different depths (dimension directories), deepest first
+    from io import BytesIO
+    from PIL import Image
+    from mapproxy.cache.file import FileCache
+    from mapproxy.image import ImageSource
+    terms3, descr3 = [], []
+    dimsets = [{'time': '2020', 'elevation': '100', 'dim_run': 'a'}, {'time': '2020', 'elevation': '100'}, {'time': '2020'}, None, {}, {'time': '../../..'}]
+    for i in range(ctx.n(12, 60)):
+        cdir = os.path.join(base, 'sc%d' % i, 'cache')
+        layout = ['tc', 'mp', 'tms', 'reverse_tms'][i % 4]
+        cache = FileCache(cdir, 'png', directory_layout=layout, link_single_color_images=True)
+        order = list(dimsets) if i < 4 else rng.sample(dimsets, len(dimsets))
+        history = []
+        for j, d in enumerate(order):
+            coord = (j, i % 3, 2)
+            colour = (10 * (i % 5), 20, 30)
+            b = BytesIO()
+            Image.new('RGB', (8, 8), colour).save(b, 'PNG')
+            b.seek(0)
+            tile = Tile(coord, ImageSource(b))
+            with audit.record() as rec:
+                o = call(cache.store_tile, tile, dimensions=d)
+            history.append({'store_tile': list(coord), 'dimensions': d})
+            links = [p_ for kd, ev, p_ in rec.events if ev == 'os.symlink']
+            rep = {'function': "FileCache(cache_dir, 'png', directory_layout, link_single_color_images=True).store_tile(single colour tile, dimensions=...)",
+                   'directory_layout': layout, 'history': list(history), 'result': o[1] if o[0] != 'ok' else 'ok',
+                   'symlink_calls': [[os.path.relpath(_fs_text(x), base) for x in p_] for p_ in links]}
+            ctx.case(('singlecolour', i, j), True, dict(rep, stream='fsops'))
+            ctx.count('fsops single colour link')
+            if o[0] != 'ok':
+                ctx.fail('fsops,raised', 'store_tile raised %s: %r' % (o[1], rep), rep)
+                continue
+            loc = tile.location
+            real = cache._single_color_tile_location(colour)
+            if not os.path.islink(loc):
+                ctx.fail('fsops,single-colour-tile-not-linked', 'tile %r is not a link' % (loc,), rep)
+                continue
+            text = os.readlink(loc)
+            target = os.path.normpath(os.path.join(os.path.dirname(loc), text))
+            if not (target == cdir or target.startswith(cdir + '/')) or target != os.path.normpath(real):
+                ctx.fail('fsops,link-in-cache-points-outside-the-cache-dir', 'after %r the tile %s is the link %r which resolves to %s (single colour file: %s)' % (
+                    history, os.path.relpath(loc, base), text, os.path.relpath(target, base), os.path.relpath(real, base)), rep)
+            comps = lambda p_: os.path.relpath(p_, cdir).split('/')   # noqa
+            terms3.append('(%s, %s, %s)' % ('[' + '; '.join(strlit(x) for x in comps(real)) + ']',
+                                           '[' + '; '.join(strlit(x) for x in comps(os.path.dirname(loc))) + ']',
+                                           '[' + '; '.join(strlit(x) for x in text.split('/')) + ']'))
+            descr3.append(rep)
+    ctx.corr_check('linktext', MODEL, 'list str * list str * list str', terms3,
+                   "fun c => let '(target, tile_dir, text) := c in list_eqb str_eqb (relpath_comps target tile_dir) text", lambda i: descr3[i])
     ctx.corr_check('ensuredir', MODEL, 'nat * bool * list str * list (bool * list str)', terms,
                    "fun c => let '(k, perm, d, obs) := c in "
                    "list_eqb (pair_eqb Bool.eqb (list_eqb str_eqb)) "
@@ -955,6 +1059,8 @@ class FakeUpstream(object):
         self.http = http
         self.orig = http.HTTPClient.open
         calls = self.calls = []
+        self.force_plain = None
+        me = self
 
         def fake(client, url, data=None, method=None):
             calls.append(url)
@@ -969,6 +1075,8 @@ class FakeUpstream(object):
                     w = h = 256
                 import zlib
                 plain = zlib.crc32(q.get('bbox', '').encode()) % 2 == 0   # single-colour answers exercise the symlink code
+                if me.force_plain is not None:
+                    plain = me.force_plain
                 buf, ct = BytesIO(fake_png(w, h, plain)), 'image/png'
             buf.headers = {'Content-type': ct}
             buf.code = 200
@@ -1071,6 +1179,11 @@ def gen_requests(ctx, corpus):
                                           ('SCALE', sc)], {}, None, {'legend': True}))
         reqs.append(('wms', '/service', [('SERVICE', 'WMS'), ('VERSION', '1.3.0'), ('REQUEST', 'GetLegendGraphic'), ('LAYER', 'l_tc'), ('FORMAT', 'image/png'),
                                           ('SLD_VERSION', '1.1.0'), ('SCALE', sc)], {}, None, {'legend': True}))
+    for k, fmt in enumerate(['image/x/' + up + 'outside/evil', 'image/png/' + up + 'outside/evil2', 'image/..', 'image/../../../../../x', 'image//outside', 'image/jpeg',
+                             'image/gif', 'application/json', 'image/png\0', 'image/' + '%2e%2e%2f' * 6 + 'x', 'image/..\\..\\..\\x', '../../../../x', 'image/png/.']):
+        for sc in ('1000', '7'):
+            reqs.append(('wms', '/service', [('SERVICE', 'WMS'), ('VERSION', '1.1.1'), ('REQUEST', 'GetLegendGraphic'), ('LAYER', layers[k % len(layers)]),
+                                              ('FORMAT', fmt), ('SCALE', sc)], {}, None, {'legend': True}))
     # parameters forwarded to a direct source (forward_req_params) are copied into the dimensions of the whole query: the file cache of
     # the same layer gets them too
     for v in ['x', up + 'outside/vendor', 'a/b', '/outside', '..', 'x\\..\\..', 'v\0', '%2F..%2F..']:
@@ -1217,12 +1330,14 @@ def gen_multiapp_requests(ctx):
 
 def stream_wsgi(ctx, corpus):
     """main: absolute configuration, every service / backend, hostile requests, sequences, multiapp;
+    linkfirst: fresh application whose first linked single colour tile lies below dimension directories; lockfault: the tile lock
+          directory cannot be created (fault);
     perm: the same caches with directory_permissions / file_permissions configured and fresh (not yet existing) cache and lock
           directories - a request may chmod what it creates, nothing that existed before;
     relative: every configured path relative, configuration loaded through a relative file name, working directory changed
           between loading and serving - the directories are those next to the configuration file, whatever the cwd is."""
     terms, descr = [], []
-    for variant in ('main', 'perm', 'relative'):
+    for variant in ('main', 'perm', 'relative', 'linkfirst', 'lockfault'):
         _stream_wsgi_variant(ctx, corpus, variant, terms, descr)
     if terms:
         ctx.corr_check('wmsdims', MODEL, 'dims * str', terms, 'fun c => str_eqb (dimensions_part py_lower (fst c)) (snd c)', lambda i: descr[i])
@@ -1241,6 +1356,12 @@ def _stream_wsgi_variant(ctx, corpus, variant, terms, descr):
     with open(os.path.join(root, 'secret.txt'), 'w') as f:
         f.write('secret')
     text, cache_dirs = make_config(root, perms=(variant == 'perm'), relative=(variant == 'relative'))
+    if variant == 'lockfault':
+        # fault: the volume of the tile lock directory is not there - its parent is a regular file (ENOTDIR for every mkdir below it)
+        with open(os.path.join(root, 'lockvolume'), 'w') as f:
+            f.write('not a directory')
+        text = text.replace('tile_lock_dir: %s' % os.path.join(root, 'tile_locks'), 'tile_lock_dir: %s' % os.path.join(root, 'lockvolume', 'tile_locks'))
+        os.makedirs(os.path.join(root, 'system-tmp'))
     conf = os.path.join(conf_dir, 'mapproxy.yaml')
     with open(conf, 'w') as f:
         f.write(text)
@@ -1249,6 +1370,8 @@ def _stream_wsgi_variant(ctx, corpus, variant, terms, descr):
             f.write(text.replace(os.path.join(root, 'cache_data'), os.path.join(root, 'outside', 'cache_data')))
     base = conf_dir if variant == 'relative' else root
     write_roots = [os.path.join(base, 'cache_data'), os.path.join(base, 'locks'), os.path.join(base, 'tile_locks')]
+    if variant == 'lockfault':
+        write_roots[2] = os.path.join(root, 'lockvolume', 'tile_locks')
     pkg_dir = os.path.realpath(os.path.dirname(mapproxy.__file__))
     template_dir = os.path.join(pkg_dir, 'service', 'templates')
     py_roots = sorted(set(os.path.realpath(p) for p in [sys.prefix, sys.base_prefix, sys.exec_prefix, os.path.dirname(pkg_dir)] +
@@ -1297,6 +1420,8 @@ def _stream_wsgi_variant(ctx, corpus, variant, terms, descr):
                 continue
             if any(under(rp, w) for w in (own or write_roots)):
                 continue
+            if event == 'os.mkdir' and any(under(w, rp) for w in write_roots) and '..' not in (_fs_text(p) or '').split('/'):
+                continue    # (attempt to) create a missing ancestor of a configured cache / lock directory
             if own and kind == 'write' and any(under(rp, w) for w in write_roots):
                 return ('wsgi,write-in-the-directory-of-another-cache', '%s of %r (%s): not in the directories of the requested cache %r' % (kind, _fs_text(p), event, own[0]))
             if own and kind == 'read' and any(under(rp, w) for w in write_roots) and not os.path.isdir(rp):
@@ -1317,9 +1442,30 @@ def _stream_wsgi_variant(ctx, corpus, variant, terms, descr):
     import logging
     logging.disable(logging.CRITICAL)
     old_cwd = os.getcwd()
+    import tempfile
+    old_tempdir = tempfile.tempdir
     try:
+        judge.lock_roots = write_roots[1:]
         _wsgi_requests(ctx, corpus, audit, conf, conf_dir, cache_dirs, judge, under, terms, descr, variant)
+        # what the requests left behind: no link inside a cache directory may lead out of it
+        nlinks = 0
+        for cname, (cdir, layout) in sorted(cache_dirs.items()):
+            for dp, dns, fns in os.walk(cdir):
+                for fn in dns + fns:
+                    lp = os.path.join(dp, fn)
+                    if os.path.islink(lp):
+                        nlinks += 1
+                        target = os.path.realpath(lp)
+                        if not under(target, os.path.realpath(cdir)):
+                            ctx.fail('wsgi,link-in-cache-points-outside-the-cache-dir',
+                                     'after the %s requests the cache %s contains the link %s -> %s which resolves to %s' % (
+                                         variant, cname, os.path.relpath(lp, root), os.readlink(lp), target),
+                                     {'variant': variant, 'cache': cname, 'link': os.path.relpath(lp, root), 'link_text': os.readlink(lp), 'resolves_to': target,
+                                      'requests': 'see harness/props/c09.py _wsgi_requests, variant %s' % variant})
+                            break
+        ctx.count('wsgi links inside caches (%s)' % variant, nlinks)
     finally:
+        tempfile.tempdir = old_tempdir
         os.chdir(old_cwd)
         logging.disable(logging.NOTSET)
 
@@ -1342,7 +1488,7 @@ def _wsgi_requests(ctx, corpus, audit, conf, conf_dir, cache_dirs, judge, under,
     from urllib.parse import urlencode
     from mapproxy.wsgiapp import make_wsgi_app
     from mapproxy import multiapp
-    with FakeUpstream():
+    with FakeUpstream() as upstream:
         root = os.path.dirname(conf_dir)
         history = {}
         if variant == 'main':
@@ -1351,6 +1497,38 @@ def _wsgi_requests(ctx, corpus, audit, conf, conf_dir, cache_dirs, judge, under,
             reqs = [(app, 'single') + r for r in gen_requests(ctx, corpus)]
             reqs += [(app, 'single') + r for r in gen_sequences(ctx, cache_dirs, root, under)]
             reqs += [(mapp, 'multiapp', 'multiapp', p, q, {}, None) for p, q in gen_multiapp_requests(ctx)]
+        elif variant == 'linkfirst':
+            # a fresh application (fresh FileCache objects): the FIRST single colour tile that is linked lies below two dimension
+            # directories, later ones below one / none; then the tiles are requested again (read through the links).  A tile-shaped file
+            # is planted where a link that is two levels too long would point to.
+            app = make_wsgi_app(conf, reloader=False)
+            from io import BytesIO
+            from PIL import Image
+            b = BytesIO()
+            Image.new('RGB', (256, 256), PLANT_RGB).save(b, 'PNG')
+            planted = []
+            for up_dir in (root, os.path.join(root, 'cache_data')):
+                os.makedirs(os.path.join(up_dir, 'single_color_tiles'), exist_ok=True)
+                for name in ('c81e28.png',):
+                    with open(os.path.join(up_dir, 'single_color_tiles', name), 'wb') as f:
+                        f.write(b.getvalue())
+                    planted.append(os.path.relpath(os.path.join(up_dir, 'single_color_tiles', name), root))
+            steps = [('l_link', [('TIME', '2020'), ('ELEVATION', '100')], 1, 0, 0), ('l_link', [('TIME', '2020')], 1, 1, 0), ('l_link', [], 1, 0, 1),
+                     ('l_link', [], 1, 1, 1), ('l_link', [], 1, 0, 1), ('l_link', [('TIME', '2020')], 1, 1, 0), ('l_link', [], 0, 0, 0), ('l_link', [], 0, 0, 0)]
+            reqs, done = [], []
+            for lay, dims, z, x, y in steps:
+                r = wms_getmap(lay, dims, z, x, y)
+                reqs.append((app, 'linkfirst') + r + ({'configuration': 'file cache with link_single_color_images: true; the upstream answers with single colour images',
+                                                       'preceded_by': list(done), 'planted_tile_files_outside_cache_dir': planted, 'upstream_single_colour': True},))
+                done.append('/service?' + '&'.join('%s=%s' % kv for kv in r[2]))
+        elif variant == 'lockfault':
+            import tempfile
+            old_tmp = tempfile.tempdir
+            tempfile.tempdir = os.path.join(root, 'system-tmp')     # what tempfile.gettempdir() answers while this variant runs
+            app = make_wsgi_app(conf, reloader=False)
+            history = {'fault': 'the parent of tile_lock_dir is a regular file: the lock directory cannot be created (ENOTDIR)',
+                       'configuration': 'tile_lock_dir: <root>/lockvolume/tile_locks, <root>/lockvolume is a file; tempfile.gettempdir() = <root>/system-tmp'}
+            reqs = [(app, 'lockfault') + r + (history,) for r in gen_basic_requests(ctx)]
         elif variant == 'perm':
             app = make_wsgi_app(conf, reloader=False)
             history = {'configuration': "globals.cache.directory_permissions: '755', file_permissions: '644'; cache and lock directories do not exist yet"}
@@ -1392,6 +1570,7 @@ def _wsgi_requests(ctx, corpus, audit, conf, conf_dir, cache_dirs, judge, under,
             the_app, which, svc, path, q, hdr, layer = r[:7]
             meta = r[7] if len(r) > 7 else {}
             query = urlencode(q)
+            upstream.force_plain = meta.get('upstream_single_colour')
             with audit.record() as rec:
                 status, body = wsgi_get(the_app, path, query, hdr)
             events = rec.events
@@ -1420,7 +1599,7 @@ def _wsgi_requests(ctx, corpus, audit, conf, conf_dir, cache_dirs, judge, under,
             for kind, event, paths in events:
                 ctx.count('wsgi %s event %s %s' % (svc, kind, event))
             base_dir = os.path.dirname(cache_dirs['c_tc'][0])
-            lock_roots = [os.path.join(os.path.dirname(base_dir), 'locks'), os.path.join(os.path.dirname(base_dir), 'tile_locks')]
+            lock_roots = judge.lock_roots
             own = None
             if which != 'multiapp' and layer and ('c_' + layer[2:]) in cache_dirs:
                 own = [cache_dirs['c_' + layer[2:]][0]] + lock_roots
